@@ -12,6 +12,19 @@ for cfg, prog in ctx.programs().items():
     for f in prog.functions.values():
         if 'body' in f and str((f.get('l') or ('',))[0]).startswith(('src/', 'include/')):
             names.add(strip_tmpl(f['qn']))
+from jpv.facts import walk
+locs = set()
+for cfg, prog in ctx.programs().items():
+    for f in prog.functions.values():
+        if 'body' in f and str((f.get('l') or ('',))[0]).startswith(('src/', 'include/')):
+            for x in walk(f['body']):
+                if isinstance(x, dict) and x.get('k') == 'decl':
+                    for v in x.get('vars', []):
+                        if v.get('name'):
+                            locs.add('%s\t%s' % (strip_tmpl(f['qn']), v['name']))
+lout = os.path.join(os.path.dirname(os.path.dirname(os.path.abspath(__file__))), 'jpv', 'baseline_locals.txt')
+open(lout, 'w').write('\n'.join(sorted(locs)) + '\n')
+print(len(locs), 'locals ->', lout)
 out = os.path.join(os.path.dirname(os.path.dirname(os.path.abspath(__file__))), 'jpv', 'baseline_functions.txt')
 open(out, 'w').write('\n'.join(sorted(names)) + '\n')
 print(len(names), 'functions ->', out)
